@@ -172,6 +172,8 @@ def check(chk):
     chk.floor("PAIR-13", 10)
 
     # -------------------------------------------------------------- FLOW-5
+    from sa.helpers import delay_add_only_schedules
+    delay_add_only_schedules(chk, "FLOW-5")
     f = repo.func(DL, "DelayManager.add")
     cfg = f.cfg()
     for s_ in store:
@@ -632,6 +634,7 @@ def _tick_arithmetic(chk, tm):
 def battery():
     from sa.battery import M
     return [
+        M("zero-length delay runs at once", DL, "        self.delays[name] = (self.machine.clock.schedule_once(\n            partial(self._process_delay_callback, name, callback, **kwargs),", "        if ms <= 0:\n            self._process_delay_callback(name, callback, **kwargs)\n            return name\n        self.delays[name] = (self.machine.clock.schedule_once(\n            partial(self._process_delay_callback, name, callback, **kwargs),", "FLOW-5"),
         M("delay scheduled in ms as seconds", DL, "            ms / 1000.0), partial(callback, **kwargs))", "            ms), partial(callback, **kwargs))", "UNIT-4"),
         M("caller passes seconds", "mpf/devices/driver.py", "self.delay.add_if_doesnt_exist(self.config['max_hold_duration'] * 1000,", "self.delay.add_if_doesnt_exist(self.config['max_hold_duration'],", "UNIT-4"),
         M("replace without cancel", DL, "        else:\n            self.machine.clock.unschedule(delay[0])\n\n        self.delays[name] = ", "\n        self.delays[name] = ", "PAIR-13"),
